@@ -103,6 +103,9 @@ int main(void) {
                     if (o.name == NULL) { printf("none end "); have = 0; }
                     else { puthex(stdout, o.name, o.namesize); printf("="); puthex(stdout, o.data, o.data ? o.datasize : 0); free(o.name); free(o.data); }
                 } else { n = atoi(a1); printf("walk"); }
+                /* "walk <n> <key>": reads of <key> (and of the extremes and the size) between the steps; they do not modify the table */
+                void *rk = NULL; size_t rkn = 0;
+                if (op[0] == 'w' && a2[0]) { rkn = unhex(a2, b2); rk = dupbuf(b2, rkn); }
                 if (have) {
                     /* collect first, print after, so that "end"/"more" precedes the list as in the model's format */
                     static char buf[1 << 20]; size_t bl = 0; buf[0] = 0;
@@ -113,9 +116,11 @@ int main(void) {
                         puthex(m, o.name, o.namesize); fputc('=', m); puthex(m, o.data, o.data ? o.datasize : 0);
                         bl += ftell(m); fclose(m);
                         free(o.name); free(o.data);
+                        if (rk) { size_t sz = 0; void *d = qtreetbl_getobj(t, rk, rkn, &sz, true); free(d); d = qtreetbl_find_min(t, &sz); free(d); d = qtreetbl_find_max(t, &sz); free(d); (void)qtreetbl_size(t); }
                     }
                     printf(" %s %s", ended ? "end" : "more", buf);
                 }
+                if (rk) scribble_free(rk, rkn);
             } else printf("?? %s", op);
             QV_END;
             if (dump) { printf(" | num=%zu tid=%d chk=%d ", t->num, (int)t->tid, qtreetbl_check(t)); shape(t->root); }
